@@ -11,11 +11,11 @@ theorem step_ok (cfg : Cfg) (susp : Bool) (probes : List Str) (nsvc : Nat) (rt :
     (hn : (keys rt).Nodup) (hw : callWF c) :
     stepOk rt (modelStepS cfg susp probes nsvc rt c rs) = true
     ∧ (modelStepS cfg susp probes nsvc rt c rs).exch.foldl foldExch rt = (runCallS cfg susp rt c rs).rt := by
-  have h := judgeFacts_runCallS cfg susp rt c rs hn hw
+  have h := judgeFacts_runCallS cfg susp rt c rs hn
   have hm := h.mirror
   refine ⟨?_, hm⟩
   simp only [stepOk, Bool.and_eq_true]
-  refine ⟨⟨⟨⟨⟨?_, h.result _ _⟩, h.target _ _⟩, h.fallback⟩, h.valid⟩, h.unsubIssued⟩
+  refine ⟨⟨⟨⟨⟨?_, h.result hw _ _⟩, h.target _ _⟩, h.fallback⟩, h.valid hw⟩, h.unsubIssued⟩
   show routedOk ((runCallS cfg susp rt c rs).exch.foldl foldExch rt) _ = true
   rw [hm]
   exact routedOk_model probes nsvc _ h.nodup _ _ _
@@ -33,6 +33,6 @@ theorem history_from (cfg : Cfg) (susp : Bool) (probes : List Str) (nsvc : Nat) 
     have h := step_ok cfg susp probes nsvc rt c rs hn (hw (c, rs) List.mem_cons_self)
     rw [h.1, h.2, Bool.true_and]
     exact ih (fun q hq => hw q (List.mem_cons_of_mem _ hq)) _
-      (judgeFacts_runCallS cfg susp rt c rs hn (hw (c, rs) List.mem_cons_self)).nodup
+      (judgeFacts_runCallS cfg susp rt c rs hn).nodup
 
 end Upnp.C09
